@@ -154,6 +154,16 @@ func (s *Session) oblig(kind, label string, tags []string, reach, goal string, p
 	return ob
 }
 
+// peekSuffix: the "~N" suffix (N >= 0) the next obligation with this kind and label would get.
+func (s *Session) peekSuffix(kind, label string) string {
+	return fmt.Sprintf("~%d", s.kindN[fmt.Sprintf("%s/%s:%s", s.Func, kind, label)])
+}
+
+// skipName consumes one ordinal of (kind, label) without creating an obligation.
+func (s *Session) skipName(kind, label string) {
+	s.kindN[fmt.Sprintf("%s/%s:%s", s.Func, kind, label)]++
+}
+
 func (s *Session) cover(kind, label string, tags []string, reach string, pos token.Position, detail string) *Oblig {
 	ob := s.oblig(kind, label, tags, reach, "false", pos, detail)
 	ob.Cover = true
